@@ -62,9 +62,17 @@ func (c *ClientCodec) Decode(response []byte, context *core.ClientContext) (resu
 			}
 			result = []interface{}{t.Indirect(p)}
 		default:
-			res := resp.Result.([]interface{})
+			res, ok := resp.Result.([]interface{})
+			if !ok {
+				// a single result for several return types
+				res = []interface{}{resp.Result}
+			}
 			result = make([]interface{}, 0, len(res))
 			for i, r := range res {
+				if i >= len(context.ReturnType) {
+					// more results than return types: the surplus is dropped
+					break
+				}
 				data, _ := c.Codec.Marshal(r)
 				t := reflect2.Type2(context.ReturnType[i])
 				p := t.New()
